@@ -68,14 +68,18 @@ fn kind_of_choice<'a>(k: u8, variant: u8, seq3: &'a [J; 3]) -> (ErrorKind<'a, J>
         }
         1 => (ErrorKind::MissingField { field: "fld" }, vec!["`fld`".into()], vec![]),
         2 | 3 => {
-            let word = if variant % 2 == 0 { "colour" } else { "zzzzzz" };
+            // received words: close / far from every alternative, all-lowercase and mixed case (a suggestion must be exactly what
+            // `did_you_mean` computes for the received text as written -- C18 decides that function)
+            const ACC2: [&str; 3] = ["Color", "filter", "maxHits"];
+            let (word, acc): (&'static str, &'static [&'static str]) = match variant { 0 => ("colour", &ACC), 1 => ("zzzzzz", &ACC), 2 => ("Colour", &ACC2), 3 => ("FILTER", &ACC2), 4 => ("maxHist", &ACC2), _ => ("cOLOR", &ACC2) };
             let mut must: Vec<String> = vec![format!("`{word}`")];
-            for a in ACC { must.push(format!("`{a}`")); }
+            for a in acc { must.push(format!("`{a}`")); }
             let mut not = vec![];
-            let sugg = did_you_mean(word, &ACC);
-            if variant % 2 == 0 { must.push("did you mean `color`?".into()); } else { not.push("did you mean".to_string()); }
-            let _ = sugg;
-            if k == 2 { (ErrorKind::UnknownKey { key: word, accepted: &ACC }, must, not) } else { (ErrorKind::UnknownValue { value: word, accepted: &ACC }, must, not) }
+            let sugg = did_you_mean(word, acc);
+            if sugg.is_empty() { not.push("did you mean".to_string()); } else { must.push(sugg.trim().to_string()); }
+            if variant == 0 { must.push("did you mean `color`?".into()); }
+            if variant == 1 || variant == 3 { not.push("did you mean".to_string()); }
+            if k == 2 { (ErrorKind::UnknownKey { key: word, accepted: acc }, must, not) } else { (ErrorKind::UnknownValue { value: word, accepted: acc }, must, not) }
         }
         4 => (ErrorKind::BadSequenceLen { actual: seq3.to_vec(), expected: 45 }, vec!["3".into(), "45".into(), "`[1,\"w\",null]`".into()], vec![]),
         _ => (ErrorKind::Unexpected { msg: "detail-msg".to_string() }, vec!["detail-msg".into()], vec![]),
@@ -88,7 +92,7 @@ pub fn msg_paths() {
     let mut steps = Vec::new();
     for _ in 0..depth { steps.push(POOL[nd::below(6) as usize].clone()); }
     let k = nd::below(6);
-    let variant = if k == 0 { nd::below(8) } else if k == 2 || k == 3 { nd::below(2) } else { 0 };
+    let variant = if k == 0 { nd::below(8) } else if k == 2 || k == 3 { nd::below(6) } else { 0 };
     let seq3 = [json!(1), json!("w"), J::Null];
     let (rj, rq) = (ref_json(&steps), ref_qp(&steps));
     let root_json = msg_of(JsonError::error::<J>(None, kind_of_choice(k, variant, &seq3).0, ValuePointerRef::Origin)).0;
@@ -263,6 +267,91 @@ pub fn msg_readback() {
     }
 }
 
+
+// ---- a wide struct (22 fields, one skipped in the middle, one renamed): declaration order of the accepted list, every field
+// ---- from its own key (slice sorts switch algorithm above 20 elements) -- native execution only ---------------------------------
+#[derive(Debug, Default, Clone, Copy, PartialEq)]
+pub struct Wide(pub u64);
+impl<E: DeserializeError> Deserr<E> for Wide {
+    fn deserialize_from_value<V: IntoValue>(value: Value<V>, location: ValuePointerRef) -> Result<Self, E> {
+        match value { Value::Integer(x) => Ok(Wide(x)), _ => Err(deserr::take_cf_content(E::error::<V>(None, ErrorKind::Unexpected { msg: String::new() }, location))) }
+    }
+}
+#[derive(Deserr, Debug)]
+#[deserr(deny_unknown_fields)]
+pub struct Big22 {
+    pub f00: Wide,
+    pub f01: Wide,
+    pub f02: Wide,
+    pub f03: Wide,
+    pub f04: Wide,
+    pub f05: Wide,
+    pub f06: Wide,
+    pub f07: Wide,
+    #[deserr(skip)]
+    pub f08: Wide,
+    pub f09: Wide,
+    pub f10: Wide,
+    #[deserr(rename = "r11x")]
+    pub f11: Wide,
+    pub f12: Wide,
+    pub f13: Wide,
+    pub f14: Wide,
+    pub f15: Wide,
+    pub f16: Wide,
+    pub f17: Wide,
+    pub f18: Wide,
+    pub f19: Wide,
+    pub f20: Wide,
+    pub f21: Wide,
+}
+/// keep-going recorder of (kind, key-or-field, accepted list, location depth)
+#[derive(Debug, Default)]
+pub struct Acc(pub Vec<(u8, String, Vec<String>, usize)>);
+impl MergeWithError<Acc> for Acc {
+    fn merge(s: Option<Self>, mut other: Acc, _l: ValuePointerRef) -> ControlFlow<Self, Self> { let mut s = s.unwrap_or_default(); s.0.append(&mut other.0); ControlFlow::Continue(s) }
+}
+impl DeserializeError for Acc {
+    fn error<V: IntoValue>(s: Option<Self>, e: ErrorKind<V>, l: ValuePointerRef) -> ControlFlow<Self, Self> {
+        let mut s = s.unwrap_or_default();
+        let mut depth = 0; let mut cur = l; loop { match cur { ValuePointerRef::Origin => break, ValuePointerRef::Key { prev, .. } => { depth += 1; cur = *prev; } ValuePointerRef::Index { prev, .. } => { depth += 1; cur = *prev; } } }
+        s.0.push(match e {
+            ErrorKind::MissingField { field } => (1, field.to_string(), vec![], depth),
+            ErrorKind::UnknownKey { key, accepted } => (2, key.to_string(), accepted.iter().map(|a| a.to_string()).collect(), depth),
+            ErrorKind::Unexpected { .. } => (5, String::new(), vec![], depth),
+            _ => (0, String::new(), vec![], depth),
+        });
+        ControlFlow::Continue(s)
+    }
+}
+pub fn derive_big22() {
+    let key_of = |i: usize| -> String { if i == 11 { "r11x".to_string() } else { format!("f{i:02}") } };
+    let expected_accepted: Vec<String> = (0..22).filter(|i| *i != 8).map(key_of).collect();
+    let mut m = serde_json::Map::new();
+    let missing = nd::below(23) as usize;          // 22 = nothing missing
+    for i in 0..22 { if i != 8 && i != missing { m.insert(key_of(i), json!(100 + i as u64)); } }
+    let unknown: Option<&str> = match nd::below(4) { 0 => None, 1 => Some("zzzz"), 2 => Some("f08"), _ => Some("f11") };
+    if let Some(k) = unknown { m.insert(k.to_string(), json!(7)); }
+    let r: Result<Big22, Acc> = deserr::deserialize(J::Object(m));
+    let expect_missing = missing < 22 && missing != 8;
+    match r {
+        Ok(v) => {
+            oblige!(unknown.is_none() && !expect_missing, "C02,C08,C09:ok_only_without_unknown_keys_and_missing_fields");
+            let got = [v.f00, v.f01, v.f02, v.f03, v.f04, v.f05, v.f06, v.f07, v.f08, v.f09, v.f10, v.f11, v.f12, v.f13, v.f14, v.f15, v.f16, v.f17, v.f18, v.f19, v.f20, v.f21];
+            oblige!((0..22).all(|i| got[i] == if i == 8 { Wide(0) } else { Wide(100 + i as u64) }), "C07,C08:every_field_from_its_effective_key_and_the_skipped_one_from_its_default");
+        }
+        Err(Acc(log)) => {
+            oblige!(unknown.is_some() || expect_missing, "C02:fails_only_if_the_payload_has_a_fault");
+            let unk: Vec<_> = log.iter().filter(|e| e.0 == 2).collect();
+            let mis: Vec<_> = log.iter().filter(|e| e.0 == 1).collect();
+            oblige!(unk.len() == unknown.is_some() as usize && unk.iter().all(|e| Some(e.1.as_str()) == unknown && e.3 == 0), "C04,C09:each_unknown_key_reported_once_at_the_container");
+            oblige!(unk.iter().all(|e| e.2 == expected_accepted), "C07,C09:accepted_list_is_the_effective_keys_of_the_non_skipped_fields_in_declaration_order");
+            oblige!(mis.len() == expect_missing as usize && mis.iter().all(|e| e.1 == key_of(missing) && e.3 == 0), "C04,C07,C08:missing_report_names_the_effective_key_once_at_the_container");
+            oblige!(log.len() == unk.len() + mis.len(), "C02:no_other_report");
+        }
+    }
+}
+
 pub fn registry() -> Vec<(&'static str, crate::Body)> {
-    vec![("msg_paths", msg_paths as crate::Body), ("msg_readback", msg_readback)]
+    vec![("msg_paths", msg_paths as crate::Body), ("msg_readback", msg_readback), ("derive_big22", derive_big22)]
 }
